@@ -109,6 +109,20 @@ Proof. exact witness_unfiltered_refuted. Qed.
 Print Assumptions C19_witness_unfiltered_refuted.
 
 
+(* ---------- one block, several valid witnesses (added after the fifth independent mutation round) ---------- *)
+
+(* For EVERY selection of the current-view commits in the table, taken in validator order, the assembled witness consists of
+   signatures over the accepted block's header and passes the multi-signature check: validators that complete the same
+   block from different M-subsets of the commits build different, equally valid witnesses, and a ledger's acceptance cannot
+   depend on whose copy arrives — also when it already knows the header from another copy (C06: the known-header branch of
+   AddBlock verifies the witness of the block it is given, accept_iff_valid). *)
+Theorem C19_any_current_view_quorum_witness_valid : forall (cur h : N) (t : table) (sel : list bool),
+  table_ok cur h t ->
+  let w := picked_sel cur sel t in
+  (forall s, In s w -> over s = h) /\ seq_match (verify_hd h) (seq 0 (length t)) w = true.
+Proof. exact any_current_view_quorum_witness_valid. Qed.
+Print Assumptions C19_any_current_view_quorum_witness_valid.
+
 (* ---------- the recovery glue (added after the second independent mutation round) ---------- *)
 
 (* A RecoveryMessage is a projection of the sender's payload tables and the receiver's reconstruction is its inverse: for a
